@@ -73,8 +73,13 @@ def plan_fault_histories(case: dict, ref: dict) -> list[list[dict]]:
         faults = []
         # the first fault of a plan walks round-robin through every (life-cycle step, error kind, transient/persistent)
         # combination, so that a batch of a few dozen cases covers all of them; its place in the run is still seeded
-        op, kind, sticky = FAULT_COMBOS[(base + j) % len(FAULT_COMBOS)]
-        e = engine.pick_fault_event_for_op(r, strata, op)
+        e = None
+        for skip in range(len(FAULT_COMBOS)):
+            # combinations whose life-cycle step does not occur in this run (e.g. rename on a tool that never renames) are passed over
+            op, kind, sticky = FAULT_COMBOS[(base + j + skip * 7) % len(FAULT_COMBOS)]
+            e = engine.pick_fault_event_for_op(r, strata, op)
+            if e is not None:
+                break
         if e is not None:
             f = {"sel": engine.selector_for(e), "kind": kind}
             if sticky:
